@@ -68,6 +68,16 @@ func (prop) Gen(r *core.Rand, tier string) []core.Case {
 	}
 	all.Ops = append(all.Ops, "valid")
 	cs = append(cs, all)
+	// the recovery byte (offset 96) takes EVERY other value once, for two keys (v = 27 and v = 28 both occur with
+	// high probability): aliasings of the recovery id (27<->0, 27<->4, compressed-key flag ...) are single-byte
+	// mutations that are not single-bit flips
+	for k := 0; k < 2; k++ {
+		rec := core.Case{ID: fmt.Sprintf("fix-recid-all-%d", k), NT: true, Ops: []string{"sign " + core.Hex(r.Bytes(32)) + " " + core.Hex(r.Bytes(32)) + " g:6:40", "valid"}}
+		for x := 1; x < 256; x++ {
+			rec.Ops = append(rec.Ops, fmt.Sprintf("mutd 96 %d", x), "valid", fmt.Sprintf("mutd 96 %d", x))
+		}
+		cs = append(cs, rec)
+	}
 	cs = append(cs, core.Case{ID: "fix-malformed", Ops: []string{"valid", "set " + id1 + " h:-", "valid", "parse", "set " + id1 + " g:1:104", "valid", "set " + id1 + " g:1:105", "valid", "parse",
 		fmt.Sprintf("set %s p:2:%d:700", id1, C+hdr), "valid", fmt.Sprintf("set %s p:2:%d:700", id1, C+hdr+1), "valid", "parse", "addr " + id1 + " " + core.Hex(bytes.Repeat([]byte{3}, 20)), "addr - -"}})
 	bigUsed := 0
@@ -213,7 +223,7 @@ func keccak(b ...[]byte) []byte { return refimpl.Keccak(b...) }
 
 // the reference predicates (written from the property statement, independent of pkg/soc and
 // pkg/crypto) live in harness/refimpl
-func refRecover(sig, digest []byte) []byte         { return refimpl.Recover(sig, digest) }
+func refRecover(sig, digest []byte) []byte        { return refimpl.Recover(sig, digest) }
 func refParse(data []byte) (digest, owner []byte) { return refimpl.SocParse(data) }
 func refValid(addr, data []byte) bool             { return refimpl.SocValid(addr, data) }
 
